@@ -457,6 +457,39 @@ func TestDrive_C08(t *testing.T) {
 			if envTier() == "thorough" {
 				n = 4000
 			}
+			// a waiting policy OUTSIDE the retry policy, cancelled in the middle of its wait
+			for i := 0; i < n/3; i++ {
+				g := &instGen{}
+				var outer PolD
+				var waitFor int64
+				if rng.Bool() {
+					mw := int64(2+rng.Intn(6))*2048 + 32
+					g.inst.Bulkheads = append(g.inst.Bulkheads, [3]int64{1, 1, mw})
+					outer, waitFor = PolD{K: "Bulkhead", Inst: 0, MaxWait: mw}, mw
+				} else {
+					g.inst.Limiters = append(g.inst.Limiters, LimCfg{Smooth: true, ViaRate: true, Interval: 8192, MaxWait: 1 << 40})
+					outer, waitFor = PolD{K: "Limiter", Inst: 0, MaxWait: 1 << 40}, 8192
+				}
+				stack := []PolD{outer, genPolicy(rng, "Retry", 1, g)}
+				if rng.Chance(40) {
+					stack = append([]PolD{genPolicy(rng, "Breaker", 0, g)}, stack...)
+				}
+				rq := ReqD{Stack: stack, CtxKey: -1, Entry: Pick(rng, append(append([]string{}, execEntries...), plainEntries...)),
+					Script: []FnStepD{{Out: genOutcome(rng), Dur: genDur(rng)}, {Out: OutD{R: 1}, Dur: 1024}},
+					ExtT: 1 + rng.I64n(waitFor-1), ExtKind: Pick(rng, []string{"Cancel", "Deadline"})}
+				if strings.HasPrefix(rq.Entry, "Run") {
+					for k := range rq.Script {
+						rq.Script[k].Out.R = 0
+					}
+				}
+				if outer.K == "Limiter" { // a first execution uses up the current slot, the second one has to wait
+					first := rq
+					first.ExtT = 0
+					add(g.inst, []ReqD{first, rq}, "outer-wait")
+				} else {
+					add(g.inst, []ReqD{rq}, "outer-wait")
+				}
+			}
 			for i := 0; i < n; i++ {
 				inst, reqs := genExecHistory(rng, pf)
 				if !boundedScript(reqs) {
